@@ -43,7 +43,7 @@ INPUTS = ["null", "true", "false", "0", "-1", "1.5", '""', '"a"', '"a,bé"', "[]
 QUICK_INPUTS = ["null", '"a,bé"', "[1,2,3]", '{"a":1,"b":[1,2]}']
 THOROUGH_PIPE_INPUTS = ["null", "true", "0", "1.5", '""', '"a,bé"', "[]", "[1,2,3]", '[[1],{"a":2},"x",null]', "{}",
                         '{"a":1,"b":[1,2]}', '{"a":{"b":null}}']
-QUICK_CTX_INPUTS = ["null", "1.5", '"a,bé"', "[1,2,3]", '{"a":1,"b":[1,2]}']
+QUICK_CTX_INPUTS = ["null", '"a,bé"', "[1,2,3]", '{"a":1,"b":[1,2]}']
 
 NULLARY = ("type length utf8bytelength keys keys_unsorted empty not add any all flatten sort reverse unique min max "
            "floor ceil round sqrt fabs trunc log exp exp2 log2 log10 sin cos tan asin acos atan sinh cosh tanh "
@@ -96,6 +96,11 @@ UNARY = [
     '"a-b-c" | split("-")', '"a-b-c" | split("-") | join("+")', '"abc" | explode | implode', '"ABC" | ascii_downcase',
     '{"a":[1,2],"b":3} | [paths]', '{"a":[1,2],"b":3} | tostream', '{"a":[1,2],"b":3} | [..]',
     '{"a":[1,2],"b":3} | to_entries', '{"a":[1,2],"b":3} | with_entries(.value |= tostring)', '{"a":[1,2],"b":3} | del(.a[0])',
+    "[2, 3, 10] | map(sqrt)", "0 | -(.) | tojson", "infinite | floor, ceil, round, trunc", "[infinite, -infinite, nan] | map(isinfinite, isnan)",
+    "infinite | tostring", "nan | tostring", "[nan] | tojson", "[1, nan] | sort", "nan < nan, nan == nan", "[[1,[2]],[[]]] | flatten",
+    "[[1,2],[3]] | transpose", "[[1,2],[3,4]] | [combinations]", "[1,2,3] | bsearch(2), bsearch(0), bsearch(4)", "[3,1,2] | reverse",
+    '"a,b" | split(",")', '"a,b" / ","', '"abc" | indices("b"), index("b"), rindex("b")', "[1,2,1] | indices(1), index(1), rindex(1)",
+    '"x" * 3', '3 * "x"', '"x" * -1', "last(empty)", "nth(2; 1,2)", "nth(-1; 1,2)", "[limit(0; 1,2)]", "[first(range(5)), last(range(5))]",
     '{"a":[1,2],"b":3} | .a[1] = 9', '{"a":[1,2],"b":3} | .a |= map(. + 1)', '{"a":[1,2],"b":3} | keys, length',
 ]
 UNARY = [u for u in UNARY if u]
@@ -108,10 +113,9 @@ CONTEXTS = ["[%s]", "(%s)?", "try (%s) catch .", "[.[]? | %s]", "first(%s)", "[l
 # second stages of quick-tier pipes (every base term is a first stage)
 CORE_B = ["type", "length", "keys", "not", "add", "sort", "reverse", "unique", "tojson", "tostring", "tonumber", "first", "last",
           ".[]", ".[]?", ".a", ".[0]", ".[1:]", "to_entries", "from_entries", "tostream", "paths", "floor", "explode", "flatten",
-          "min", "any", "transpose", "@csv", "@json", ". + 1", '. + "a"', ". + null", ". - 1", ". * 2", ". / 2", ". < 1", ". == null",
-          'has("a")', "map(.)", "select(.)", 'split(",")', 'join(",")', 'index("a")', "contains(.)", "del(.a)", ".a = 1", ".a |= 2",
-          "with_entries(.)", "error", "try error catch .", "if . then 1 else 2 end", "{a: .}", '"a\\(.)"', "-(.)", "combinations",
-          "implode", "walk(.)", ".."]
+          "min", "transpose", "@csv", ". + 1", '. + "a"', ". - 1", ". * 2", ". / 2", ". < 1", 'has("a")', "map(.)", 'split(",")',
+          'join(",")', 'index("a")', "contains(.)", "del(.a)", ".a = 1", ".a |= 2", "error", "try error catch .",
+          "if . then 1 else 2 end", '"a\\(.)"', "-(.)", "combinations", "walk(.)"]
 
 LITS = ["null", "false", "true", "0", "1", "-1", '""', '"a"', '"ab"', "[]", "[1]", "[1,2]", "{}", '{"a":1}', '{"a":{"b":1}}']
 ARITH = ["+", "-", "*", "/", "%"]
@@ -833,11 +837,9 @@ def base_signature(prog_for_key, on_text, exp, obs, prog_full, flags=(), ctx=Non
     if dk == "no-error(jq:error)":
         return "%s%s:answers-where-jq-errors:%s" % (where, tk, sentence(exp[2]))
     if dk in ("value", "outputs-before-error"):
-        if any("e+308" in l for l in exp[0]) or any(l == "null" for l in exp[0]) and "nan" in prog_full:
-            return "%s%s:%s:nonfinite-number" % (where, tk, dk)
         if same_values(exp[0], obs[0], True):
             return "%s%s:float-result-off-in-last-digits" % (where, tk)
-        return "%s%s:%s:on-%s" % (where, tk, dk, kind_class(on_text) if on_text is not None else "stream")
+        return "%s%s:%s:on-%s" % (where, tk, dk, kind_class(on_text) if on_text is not None else "literal")
     return "%s%s:%s" % (where, tk, dk)
 
 
@@ -867,14 +869,47 @@ def _children(inp_text):
 ELEMENTWISE = ("map(%s)", "[.[]? | %s]")
 
 
+_INDEP = {}
+
+
+def input_independent(prog):
+    """Does the oracle give this term the same answer on three very different inputs?  Then the kind of the input says
+    nothing about the disagreement and is left out of the signature."""
+    r = _INDEP.get(prog)
+    if r is None:
+        outs = [model_outcome(prog, i, False)[:3] for i in ("null", "[1,2,3]", '{"a":1,"b":[1,2]}', '"a,b"', "1")]
+        r = _INDEP[prog] = outs[0][0] == "ok" and all(o == outs[0] for o in outs)
+    return r
+
+
+def _outputs_nonfinite(a, inp):
+    try:
+        outs, _ = jq171.evaluate(a, jq171.parse_json(inp), False)
+    except Unsupported:
+        return False
+    def bad(o):
+        if isinstance(o, float):
+            return o != o or o in (float("inf"), float("-inf"))
+        if isinstance(o, list):
+            return any(bad(x) for x in o)
+        if isinstance(o, dict):
+            return any(bad(x) for x in o.values())
+        return False
+    return any(bad(o) for o in outs)
+
+
 def composite_signature(space, prog, inp, parts, exp, obs, flags):
     """Signature of a disagreement that no sub-program shows on its own."""
     if space == "P2-pipe":
+        if _outputs_nonfinite(parts[0], inp):
+            # the second stage receives infinite / nan, which cannot be fed in as an input document
+            return "nonfinite-number:%s:%s" % (family(term_key(parts[1])), diff_kind(exp, obs, uses_libm(prog)))
         sig = base_signature(parts[1], None, exp, obs, prog, flags, ctx="after " + term_key(parts[0]))
     elif space == "P2-context":
-        sig = base_signature(parts[0], inp, exp, obs, prog, flags, ctx="in " + parts[1].replace("%s", "_").replace(" ", ""))
+        sig = base_signature(parts[0], None if input_independent(parts[0]) else inp, exp, obs, prog, flags,
+                             ctx="in " + parts[1].replace("%s", "_").replace(" ", ""))
     else:
-        sig = base_signature(prog, inp, exp, obs, prog, flags)
+        sig = base_signature(prog, None if input_independent(prog) else inp, exp, obs, prog, flags)
     return sig
 
 
@@ -895,8 +930,14 @@ def _example_full(space, parts, *a):
 
 
 def process_shard(arg):
-    sid, items = arg
-    W = G["witness"]
+    sid, items = arg[0], arg[1]
+    if len(arg) > 2:
+        # forked worker: a small private witness pre-filled with this shard's cached answers (the parent's big cache
+        # is never touched here, so no copy-on-write traffic)
+        W = Witness.__new__(Witness)
+        W.version, W.data, W.loaded, W.fresh_pairs, W.spawns, W.dirty = G["jq16_version"], arg[2], 0, 0, 0, False
+    else:
+        W = G["witness"]
     J = Judge(W)
     p1_fail = G.get("p1_fail", {})
     keep = G.get("keep")
@@ -911,14 +952,19 @@ def process_shard(arg):
         for inp in inputs:
             jobs.append(_job(prog, inp))
             meta.append((space, prog, inp, parts))
+    tm = out["tm"] = {"batch": 0.0, "model": 0.0, "witness": 0.0, "judge": 0.0, "attribute": 0.0}
+    _t = time.time()
     res = batch.runbatch(jobs, nproc=G.get("batch_procs", 1), tag="c24s%d" % sid)
+    tm["batch"] += time.time() - _t
     out["jobs"] += len(jobs)
     progs = list(dict.fromkeys(p for (_, p, _, _) in items))
     before = W.spawns
     fresh_before = W.fresh_pairs
     boths = {}
+    _t = time.time()
     for (space, prog, inp, parts) in meta:
         boths[(prog, inp)] = model_both(prog, inp)
+    tm["model"] += time.time() - _t
 
     def crashes(p, i):
         b = boths.get((p, i))
@@ -934,9 +980,12 @@ def process_shard(arg):
     by_inputs = {}
     for (space, prog, inputs, parts) in items:
         by_inputs.setdefault(tuple(inputs), []).append(prog)
+    _t = time.time()
     for inputs, ps in by_inputs.items():
         W.ensure(list(dict.fromkeys(ps)), list(inputs), nthreads=G.get("wit_threads", 1), chunk=400, crashes=crashes)
-    if keep is not None:
+    tm["witness"] += time.time() - _t
+    _t = time.time()
+    if keep is not None and W.fresh_pairs != fresh_before:
         for p in progs:
             if p in keep and p in W.data:
                 out["newwit"][p] = W.data[p]
@@ -960,6 +1009,8 @@ def process_shard(arg):
                 out["samples"].append({"program": prog, "input": inp, "jq171_model_stdout": m[1][:3], "status": status})
             continue
         pending.append((space, prog, inp, parts, status, info))
+    tm["judge"] += time.time() - _t
+    _t = time.time()
     # ---- attribution to the minimal sub-program ----
     need = {}    # (subprog, subinput) -> None
     plans = []
@@ -1009,7 +1060,7 @@ def process_shard(arg):
             for s in plan[1]:
                 st2, info2 = need[s]
                 if st2 in ("fail", "fail-undet"):
-                    sig = base_signature(s[0], s[1], info2[1], info2[2], s[0], info2[0][3])
+                    sig = base_signature(s[0], None if input_independent(s[0]) else s[1], info2[1], info2[2], s[0], info2[0][3])
                     basis = s
                     break
             if sig is None:
@@ -1030,6 +1081,7 @@ def process_shard(arg):
                 del f["examples"][3:]
             elif len(f["examples"]) < 3:
                 f["examples"].append(ex)
+    tm["attribute"] += time.time() - _t
     out["spawns"] += W.spawns - before
     out["wit_fresh"] = W.fresh_pairs - fresh_before
     return out
@@ -1062,6 +1114,8 @@ def _merge(tot, o):
         if len(tot["samples"]) < 6:
             tot["samples"].append(s)
     tot["newwit"].update(o["newwit"])
+    for k, v in o.get("tm", {}).items():
+        tot["tm"][k] = round(tot["tm"].get(k, 0.0) + v, 2)
     tot["pairsig"].update(o.get("pairsig", {}))
 
 
@@ -1100,6 +1154,10 @@ def run(ctx):
     bind_model(rep)
     timing["bind_s"] = round(time.time() - t0, 2)
     W = Witness()
+    import gc
+    gc.collect()
+    gc.freeze()          # the cached jq 1.6 answers are millions of long-lived objects: keep the cyclic GC off them
+    gc.set_threshold(100000, 50, 50)
     G.clear()
     G["witness"] = W
     quick_progs = set(p for (_, p, _, _) in programs("quick"))
@@ -1107,7 +1165,7 @@ def run(ctx):
     space = programs(tier)
     nproc = common.nproc()
     tot = {"counts": {}, "fails": {}, "undet": {}, "excluded": {}, "outside": {}, "distinct": set(), "newwit": {}, "jobs": 0,
-           "spawns": 0, "samples": [], "wit_fresh": 0, "propagated": 0, "pairsig": {}}
+           "spawns": 0, "samples": [], "wit_fresh": 0, "propagated": 0, "pairsig": {}, "tm": {}}
     # phase 1: P(1) and the operator matrix, in this process (its jobs feed the batch/spawn equivalence self-test)
     t1 = time.time()
     p1_items = [t for t in space if t[0] in ("P1", "matrix")]
@@ -1125,7 +1183,11 @@ def run(ctx):
     G["nocompile_terms"] = set(p for p in base_terms() if any(v[0] == "nocompile" for v in W.data.get(p, {}).values()))
     p2 = [t for t in space if t[0] not in ("P1", "matrix")]
     per = 600
-    shards = [(k + 1, p2[i:i + per]) for k, i in enumerate(range(0, len(p2), per))]
+    G["jq16_version"] = W.version
+    shards = []
+    for k, i in enumerate(range(0, len(p2), per)):
+        its = p2[i:i + per]
+        shards.append((k + 1, its, {t[1]: W.data[t[1]] for t in its if t[1] in W.data}))
     s = common.seed() % max(1, len(shards))
     shards = shards[s:] + shards[:s]
     capped = None
@@ -1207,7 +1269,7 @@ def run(ctx):
         "documented_1.6_to_1.7.1_changes": jq171.CHANGES,
         "documented_divergences_table": DIVERGENCES,
         "batch_jobs": tot["jobs"], "batch_jobs_confirmed_by_real_spawns": confirmed,
-        "timing": timing,
+        "timing": timing, "worker_seconds_by_phase": tot["tm"],
     })
     return rep.to_json()
 
@@ -1238,7 +1300,7 @@ def replay(ctx, rep):
         if (bprog, binp) != (prog, inp):
             stb, infob = J.judge(bprog, binp, rb)
             if stb in ("fail", "fail-undet"):
-                sig = base_signature(bprog, binp, infob[1], infob[2], bprog, infob[0][3])
+                sig = base_signature(bprog, None if input_independent(bprog) else binp, infob[1], infob[2], bprog, infob[0][3])
         if sig is None:
             sp = case.get("space", "P1")
             parts = tuple(case["parts"]) if case.get("parts") else None
